@@ -81,34 +81,16 @@ Values(ww) == (IF ww \in SmallWidths \cup HexWidths THEN SmallValues(ww) ELSE {}
               \cup (IF ww \in BigWidths THEN BigValues(ww) ELSE {})
               \cup (IF ww = PatWidth THEN PatValues ELSE {})
 
-Lower(bs) == [i \in 1..Len(bs) |-> IF bs[i] >= 65 /\ bs[i] <= 70 THEN bs[i] + 32 ELSE bs[i]]
-Notations(ww, v) ==
-  LET nd == (ww + 3) \div 4
-      decs == {[tag |-> "dec", lit |-> RefDec(v)],
-               [tag |-> "dec-leading-zeros",
-                lit |-> (IF v.neg THEN <<45>> ELSE <<>>) \o <<48, 48>> \o Map(DecByte, NatToDec(v.mag))]}
-              \cup (IF v.mag = <<>> THEN {[tag |-> "dec-minus-zero", lit |-> <<45, 48>>]} ELSE {})
-      u0xs == IF v.neg THEN {}
-              ELSE {[tag |-> "u0x", lit |-> RefU0x(v)],
-                    [tag |-> "u0x-lower", lit |-> Lower(RefU0x(v))],
-                    [tag |-> "u0x-leading-zero", lit |-> <<117, 48, 120, 48>> \o Map(HexByteU, NatToHex(v.mag))],
-                    [tag |-> "u0x-long", lit |-> <<117, 48, 120>> \o Map(HexByteU, NatToHexN(v.mag, nd + 2))]}
-      s0xs == IF ~SignedRange(ww, v) THEN {}
-              ELSE {[tag |-> "s0x", lit |-> RefS0xN(ww, v, nd)],
-                    [tag |-> "s0x-lower", lit |-> Lower(RefS0xN(ww, v, nd))],
-                    [tag |-> "s0x-long", lit |-> RefS0xN(ww, v, nd + 1)],
-                    [tag |-> "s0x-short",
-                     lit |-> <<115, 48, 120>> \o Map(HexByteU, NatToHex(NatNorm(Pattern(ww, v))))]}
-      bools == IF ww # 1 \/ v.neg THEN {}
-               ELSE {[tag |-> "bool", lit |-> IF v.mag = <<>> THEN LitFalse ELSE LitTrue]}
-  IN IF ww \in HexWidths \ SmallWidths
-     THEN {n \in u0xs \cup s0xs : n.tag \in {"u0x", "u0x-leading-zero", "s0x", "s0x-long", "s0x-short"}}
-     ELSE decs \cup u0xs \cup s0xs \cup bools
+\* Literals!Notations: every spelling of v at width ww; hex-only widths keep the hexadecimal ones
+NotationsOf(ww, v) ==
+  IF ww \in HexWidths \ SmallWidths
+  THEN {n \in Notations(ww, v) : n.tag \in {"u0x", "u0x-leading-zero", "s0x", "s0x-long", "s0x-short"}}
+  ELSE Notations(ww, v)
 
 Init == w = 0 /\ val = Zero /\ tag = "" /\ lit = <<>> /\ stage = 0
 Next == \/ stage = 0 /\ w' \in Widths /\ stage' = 1 /\ UNCHANGED <<val, tag, lit>>
         \/ stage = 1 /\ val' \in Values(w) /\ stage' = 2 /\ UNCHANGED <<w, tag, lit>>
-        \/ stage = 2 /\ (\E n \in Notations(w, val) : tag' = n.tag /\ lit' = n.lit)
+        \/ stage = 2 /\ (\E n \in NotationsOf(w, val) : tag' = n.tag /\ lit' = n.lit)
                      /\ stage' = 3 /\ UNCHANGED <<w, val>>
 Spec == Init /\ [][Next]_vars
 
